@@ -78,6 +78,7 @@ Theorem C14_level0_deflate_output_inflates_back_partial :
    N.of_nat (length out) < 2 ^ 57 -> n < 2 ^ 40 ->
    exists codes acc s',
      sfeed (InflateStream.is_new fmt) [] calls [] [] = Ret (codes, acc, s') /\
-     Forall code_ok codes /\ acc = firstn (length acc) (firstn (N.to_nat n) data) /\
+     Forall (fun c => c = InflateStream.MZ_OK \/ c = InflateStream.MZ_STREAM_END \/ c = InflateStream.MZ_ERR_BUF) codes /\
+     acc = firstn (length acc) (firstn (N.to_nat n) data) /\
      (In InflateStream.MZ_STREAM_END codes -> acc = firstn (N.to_nat n) data)).
 Proof. split; [exact level0_deflate_then_inflate_finish|exact level0_deflate_then_inflate_calls]. Qed.
